@@ -6,6 +6,7 @@ gradient of the library scalar w.r.t. every raw parameter vs autograd of the den
 Module.named_priors (every registered prior is enumerated exactly once), anomaly detection during backward.
 LOO reference is the literal definition (refit on all-but-i). The CG/SLQ path is decided statistically.
 """
+import itertools
 import random
 
 PROPERTY = "C02"
@@ -64,6 +65,13 @@ def cases(tier, seed):
             for b_ in ([], [2]):
                 yield {"kernel": KERNELS[ki], "mean": "constant", "lik": rnd.choice(["gauss", "fixed+learn"]), "n": rnd.choice([2, 5]), "d": 1, "batch": b_, "priors": rnd.choice(["none", "independent"]),
                        "objective": "mll", "path": rnd.choice(["cholesky", "default"]), "added": True, "seed": rnd.randrange(10**6)}
+        # SGPR (inducing-point kernel): the objective is the collapsed bound = dense log density of the Nystrom model + the
+        # kernel's registered added loss term, under homoskedastic / fixed / fixed+learned noise (shared with C09)
+        for m_, lk in itertools.product((2, 4), ("gaussian", "fixed", "fixed_learned")):
+            yield {"kind": "sgpr_bound", "m": m_, "lik": lk, "objective": "mll", "seed": rnd.randrange(10**6)}
+        # heteroskedastic noise (a noise GP inside the likelihood): value and gradients w.r.t. every parameter, the noise GP's included
+        for n_ in (4, 7):
+            yield {"kind": "hetero", "n": n_, "objective": "mll", "seed": rnd.randrange(10**6)}
         # priors handed to the constructors (`<parameter>_prior=`): each must enter at the constrained value of ITS parameter
         for variant in ("cyl", "std"):
             yield {"kernel": {"k": "ctor_" + variant}, "mean": "constant", "lik": "gauss", "n": rnd.choice([3, 6]), "d": 2, "batch": [], "priors": "ctor", "objective": rnd.choice(["mll", "loo"]),
@@ -293,6 +301,52 @@ def _prior_sum(ref, res_ndim):
     return tot
 
 
+def _hetero(case, ctx, g):
+    """exact MLL under a heteroskedastic likelihood: log N(y; m, K + diag(r(X))) with r = constraint(posterior mean of the noise
+    GP at X), as a function of ALL raw parameters (kernel, mean, the noise GP's kernel / mean / noise)"""
+    import torch
+
+    import gpytorch
+    from vf import util
+
+    n = case["n"]
+    X = util.randn(g, n, 2)
+    y = util.randn(g, n)
+    Xn, yn = util.randn(g, 5, 2), util.randn(g, 5) * 0.5 - 1.0
+    K, L = gpytorch.kernels, gpytorch.likelihoods
+    noise_lik = L.GaussianLikelihood()
+    noise_gp = util.GP(Xn, yn, noise_lik, gpytorch.means.ConstantMean(), K.ScaleKernel(K.RBFKernel()))
+    cons = gpytorch.constraints.GreaterThan(1e-3)
+    lik = L.gaussian_likelihood._GaussianLikelihoodBase(L.noise_models.HeteroskedasticNoise(noise_gp, noise_constraint=cons))
+    model = util.GP(X, y, lik, gpytorch.means.ConstantMean(), K.ScaleKernel(K.MaternKernel(nu=2.5)))
+    util.randomize(model, g, 0.4)
+    model.train()
+    lik.train()
+    params = [p for p in model.parameters() if p.requires_grad]
+    names = [nm for nm, p in model.named_parameters() if p.requires_grad]
+    mll = gpytorch.mlls.ExactMarginalLogLikelihood(lik, model)
+    got = mll(model(X), y, X)
+    ggot = torch.autograd.grad(got, params, allow_unused=True)
+    # dense reference (differentiable): noise GP posterior mean at X by dense algebra
+    with gpytorch.settings.lazily_evaluate_kernels(False):
+        kn = noise_gp.covar_module
+        Knn, Kxn = kn(Xn).to_dense(), kn(X, Xn).to_dense()
+        mn, mxn = noise_gp.mean_module(Xn), noise_gp.mean_module(X)
+        alpha = torch.linalg.solve(Knn + noise_lik.noise * torch.eye(5), (yn - mn).unsqueeze(-1)).squeeze(-1)
+        r = cons.transform(mxn + Kxn @ alpha)
+        Kxx = model.covar_module(X).to_dense()
+        ref = util.mvn_logpdf(y, model.mean_module(X), Kxx + torch.diag(r)) / n
+    gref = torch.autograd.grad(ref, params, allow_unused=True)
+    ctx.close("mll_value", got, ref, "direct", cls="mll:hetero")
+    for nm, a_, r_ in zip(names, ggot, gref):
+        if a_ is None and r_ is None:
+            continue
+        a_ = torch.zeros(()) if a_ is None else a_
+        r_ = torch.zeros_like(a_) if r_ is None else r_
+        ctx.close("mll_grad", a_, r_.expand(a_.shape), (1e-7, 1e-7), cls="mll:hetero:grad:" + ("noise_gp" if "noise_model" in nm else "model"), parameter=nm)
+    ctx.cell({k: v for k, v in case.items() if k != "seed"}, nontrivial=True)
+
+
 def run_case(case, ctx):
     import torch
 
@@ -301,6 +355,15 @@ def run_case(case, ctx):
     from vf import util
 
     g = util.gen(case["seed"])
+    if case.get("kind") == "hetero":
+        return _hetero(case, ctx, g)
+    if case.get("kind") == "sgpr_bound":
+        from vf.checks import c09
+
+        ctx.hit("mll_value", 0)
+        r_ = c09._sgpr_bound(case, ctx, g)
+        ctx.cell({k: v for k, v in case.items() if k != "seed"}, nontrivial=True)
+        return r_
     if case["objective"] == "sum_mll":
         return _sum_mll(case, ctx, g)
     early = None
